@@ -3,7 +3,7 @@ BASE = dict(src="ifs.c", include=["asmif.c"], units=["tempresult.c", "nonzstring
             functions=["asmif.c:CodeIFs", "CodeIF", "CodeIFDEF", "CodeIFUSED", "CodeIFEXIST", "CodeIFB", "CodeELSEIF", "CodeENDIF",
                        "CodeSWITCH", "CodeCASE", "CodeELSECASE", "CodeENDCASE", "PushIF", "SaveIFs", "AsmIFInit", "ifsave_create", "ifsave_free"],
             assumes=["expression evaluator, symbol/macro/function/file lookups replaced by stubs returning arbitrary values",
-                     "listing decoration (as_snprintf, ListLine) stubbed", "integer selectors only"])
+                     "listing decoration (as_snprintf, ListLine) stubbed", "integer selectors only, except case_types_*"])
 def ob(name, k, **kw):
     d = dict(BASE); d.update(unwind=20, name=name, defs=["K=%d" % k, "STRINGSIZE=16"], bounds="all sequences of %d statements from 17 kinds, arbitrary 64-bit conditions/selectors, 0..3 arguments" % k)
     d.update(kw); return d
@@ -11,6 +11,17 @@ OBLIGATIONS = [
     ob("ifs_k4", 4, timeout=900),
     ob("ifs_k6", 6, tier="thorough", timeout=3000, mem_gb=24),
 ]
+TN = "ifs"
+for st in range(3):
+    for a1 in range(3):
+        for a2 in range(3):
+            if st == a1 == a2 == 0: continue
+            OBLIGATIONS.append(ob("case_types_%s_%s%s" % (TN[st], TN[a1], TN[a2]), 3, timeout=900, unwind=24, mem_gb=16,
+                tier="quick" if (st, a1, a2) in ((0, 1, 0), (1, 0, 1), (2, 0, 2), (0, 2, 0), (2, 2, 2)) else "thorough",
+                units=BASE["units"] + ["strutil.c"], cuts={"strutil.c": ["as_snprintf", "as_snprcatf", "as_sdprintf", "as_sdprcatf", "strmaxcpy", "strmaxcat", "strmaxprep", "strcpy"]},
+                defs=["K=3", "STRINGSIZE=16", "TYPES", "SELTY=%d" % st, "A1TY=%d" % a1, "A2TY=%d" % a2],
+                bounds="SWITCH with %s selector followed by 2 statements from CASE/ELSECASE/ENDCASE/other, CASE lists of 0..3 entries typed (%s,%s,%s); integers any 64-bit value, floats 4 values, strings 4 one-character values"
+                       % (TN[st], TN[a1], TN[a2], TN[a1])))
 META = dict(outside=["that Produce_Code skips non-conditional lines while IfAsm is false (one if, read)", "nesting deeper than K",
-                     "float and string selectors (thorough slices pending)", "SELECT spelling when SWITCH is a machine instruction"],
+                     "float/string selectors beyond the four sample values each of the case_types_* obligations", "SELECT spelling when SWITCH is a machine instruction"],
             assumptions=["malloc never fails"])
